@@ -103,7 +103,7 @@ def check_c08(tier):
     vh = build_harness()
     devs = [f["id"] for f in known_findings() if f["status"] == "open" and f["property"] == pid]
     fmap = {f["id"]: f for f in known_findings()}
-    libs, n = libraries(res, work, "Gen_Lib_rename.cfg" if tier == "quick" else "Gen_Lib_refactor.cfg")
+    libs, n = libraries(res, work, "Gen_Lib_rename.cfg" if tier == "quick" else "Gen_Lib_refactor_thorough.cfg")
     shards = 10
     scratch = os.path.join(work, "scratch")
     evs = [os.path.join(work, "ev.%d.ndjson" % i) for i in range(shards)]
